@@ -47,7 +47,7 @@ class Val:
                     while v.k == "ref" and n < 32:
                         v = v.target()
                         n += 1
-                    if v.k in ("adt", "tuple") and isinstance(v.v, list) and f < len(v.v):
+                    if v.k in ("adt", "tuple", "list") and isinstance(v.v, list) and f < len(v.v):
                         v = v.v[f]
                     else:
                         return self.v
@@ -61,6 +61,43 @@ class Val:
             x = x.target()
             n += 1
         return x
+
+
+def _structural_eq(a, b, depth=0):
+    """derived PartialEq on fully concrete aggregates (newtypes around integers, tuples, Option/Result of those): True / False, or
+    None when a leaf is not concrete"""
+    a, b = a.deref(), b.deref()
+    if depth > 8:
+        return None
+    if a.k in ("str", "int", "bool", "char") and b.k == a.k:
+        return a.v == b.v
+    if a.k == "variant" and b.k == "variant":
+        return a.v == b.v
+    if {a.k, b.k} == {"variant", "adt"}:
+        va, ad = (a, b) if a.k == "variant" else (b, a)
+        if isinstance(ad.extra, tuple) and len(ad.extra) > 1 and ad.extra[0] not in ("closure", "coroutine", "nom"):
+            return False if ad.extra[1] != va.v else None
+        return None
+    if a.k == b.k and a.k in ("adt", "tuple") and isinstance(a.v, list) and isinstance(b.v, list):
+        if a.k == "adt":
+            if not (isinstance(a.extra, tuple) and isinstance(b.extra, tuple)) or a.extra[0] in ("closure", "coroutine", "nom"):
+                return None
+            if a.extra[0].rsplit("::", 1)[-1] != b.extra[0].rsplit("::", 1)[-1]:
+                return None
+            if a.extra[1] != b.extra[1]:
+                return False
+        if len(a.v) != len(b.v):
+            return None
+        out = True
+        for x, y in zip(a.v, b.v):
+            if not isinstance(x, Val) or not isinstance(y, Val):
+                return None
+            r = _structural_eq(x, y, depth + 1)
+            if r is None:
+                return None
+            out = out and r
+        return out
+    return None
 
 
 def _is_place(x):
@@ -93,7 +130,7 @@ def _resolve_place(extra, env):
             if i == len(path):
                 break
             f = path[i]
-            if v.k in ("adt", "tuple") and isinstance(v.v, list) and f < len(v.v):
+            if v.k in ("adt", "tuple", "list") and isinstance(v.v, list) and f < len(v.v):
                 v = v.v[f]
                 i += 1
             else:
@@ -118,7 +155,7 @@ class _Slot:
             while v.k == "ref" and n < 32:
                 v = v.target()
                 n += 1
-            if v.k in ("adt", "tuple") and isinstance(v.v, list) and f < len(v.v):
+            if v.k in ("adt", "tuple", "list") and isinstance(v.v, list) and f < len(v.v):
                 v = v.v[f]
             else:
                 return default
@@ -130,7 +167,7 @@ class _Slot:
                 return new
             if v.k == "ref":
                 return Val("ref", put(v.v, path), v.extra)
-            if v.k in ("adt", "tuple") and isinstance(v.v, list) and path[0] < len(v.v):
+            if v.k in ("adt", "tuple", "list") and isinstance(v.v, list) and path[0] < len(v.v):
                 nv = list(v.v)
                 nv[path[0]] = put(nv[path[0]], path[1:])
                 return Val(v.k, nv, v.extra)
@@ -251,6 +288,12 @@ def _parse_pp_value(part):
     if _re.match(r"^[A-Za-z_][\w:<>]*$", part) and "::" in part:
         adt, name = part.rsplit("::", 1)
         return variant(adt, name)
+    m = _re.match(r"^([A-Za-z_][\w:]*)\((.*)\)$", part)
+    if m and "::" in m.group(1):
+        # a tuple struct / newtype constant: `openssl::pkey::Id(6_i32)`
+        items = [_parse_pp_value(x) for x in _split_top(m.group(2))]
+        if items and all(x is not None for x in items):
+            return Val("adt", items, (m.group(1), m.group(1).rsplit("::", 1)[-1]))
     return None
 
 
@@ -341,6 +384,10 @@ def const_val(body, op):
         if "::" in pp and pp.replace("::", "").replace("_", "").isalnum():
             adt, name = pp.rsplit("::", 1)
             return variant(adt, name)
+        if re.match(r"^[A-Za-z_][\w:]*\(-?\d+_[iu]\w+\)$", pp):
+            v_ = _parse_pp_value(pp)                           # newtype constant around an integer: `openssl::pkey::Id(6_i32)`
+            if v_ is not None:
+                return v_
         return Val("unknown", pp)
     return UNKNOWN
 
@@ -606,6 +653,9 @@ class Interp:
                 r = (a.v == b.v) and (a.extra == b.extra or a.k != "variant" or a.extra is None or b.extra is None
                                       or a.extra.rsplit("::", 1)[-1] == b.extra.rsplit("::", 1)[-1])
                 return vbool(r if fn.endswith("eq") else not r)
+            se = _structural_eq(a, b)
+            if se is not None:
+                return vbool(se if fn.endswith("eq") else not se)
             return UNKNOWN
         r = self.fmt_models(cs, args, d)
         if r is not None:
@@ -615,6 +665,8 @@ class Interp:
         if cs.is_(*TRANSPARENT) and args:
             a = args[0]
             if fn.endswith("clone") or fn.endswith("to_owned") or fn.endswith("to_string") or fn.endswith("into") or fn.endswith("from"):
+                if (fn.endswith("clone") or fn.endswith("to_owned")) and a.deref().k == "list":
+                    return a.deref()                        # a cloned Vec / map / set is a value of its own, not a view of the original
                 return a.deref() if a.deref().k in ("str", "variant", "int", "bool", "adt", "tuple") else a
             return a
         if cs.is_("core::str::<impl str>::to_lowercase", "alloc::str::<impl str>::to_lowercase") and d and d[0].k == "str":
@@ -1062,6 +1114,27 @@ class Interp:
             return Val("iter", [d[0].v] * d[1].v)
         if fn in ("std::collections::hash::map::HashMap::new", "std::collections::hash::map::HashMap::with_capacity", "alloc::collections::btree::map::BTreeMap::new"):
             return Val("list", [], "map")
+        if fn.startswith(("std::collections::hash::map::HashMap::", "alloc::collections::btree::map::BTreeMap::")) and d and d[0].k == "list" and d[0].extra == "map":
+            ents = [x.deref() for x in d[0].v]
+            if all(e_.k == "tuple" and len(e_.v) == 2 for e_ in ents):
+                if m == "is_empty":
+                    return vbool(not ents)
+                if m == "len":
+                    return vint(len(ents))
+                if m == "iter":
+                    return Val("iter", [Val("tuple", [Val("ref", e_.v[0]), Val("ref", e_.v[1])]) for e_ in ents])
+                if m == "keys":
+                    return Val("iter", [Val("ref", e_.v[0]) for e_ in ents])
+                if m == "values":
+                    return Val("iter", [Val("ref", e_.v[1]) for e_ in ents])
+                if m in ("get", "contains_key") and len(d) > 1 and d[1].k in ("str", "int", "variant") and all(e_.v[0].deref().k == d[1].k for e_ in ents):
+                    hit = [e_ for e_ in ents if e_.v[0].deref().v == d[1].v]
+                    if m == "contains_key":
+                        return vbool(bool(hit))
+                    return some(Val("ref", hit[0].v[1])) if hit else NONE_V
+        if fn == "core::iter::traits::collect::IntoIterator::into_iter" and d and d[0].k == "list" and d[0].extra == "map" and all(x.deref().k == "tuple" for x in d[0].v):
+            by_ref_ = args[0].k == "ref"
+            return Val("iter", [Val("tuple", [Val("ref", e_.deref().v[0]), Val("ref", e_.deref().v[1])]) if by_ref_ else e_.deref() for e_ in d[0].v])
         if fn.startswith(("core::ops::bit::", "core::ops::arith::")) and len(d) == 2 and d[0].k == "int" and d[1].k == "int":
             x, y = d[0].v, d[1].v
             ops = {"bitand": lambda: x & y, "bitor": lambda: x | y, "bitxor": lambda: x ^ y, "shr": lambda: x >> y if 0 <= y < 128 and x >= 0 else None,
@@ -1381,6 +1454,21 @@ class Interp:
         a = d[0]
         if a.k == "list":
             by_ref = args[0].k == "ref"
+            # `iter_mut()` / `for x in &mut v`: the element references designate the elements' storage (writes through them persist)
+            pl_ = args[0].extra if (args[0].k == "ref" and _is_place(args[0].extra)) else None
+            mut_elems = None
+            if pl_ is not None:
+                try:
+                    fr_, l_, path_ = _resolve_place(pl_, getattr(self, "_env", {}))
+                    fid_ = next((k_ for k_, v_ in _FRAMES.items() if v_ is fr_), None)
+                    if fid_ is not None:
+                        mut_elems = [Val("ref", x, ("place", l_, fid_, tuple(path_) + (i_,))) for i_, x in enumerate(a.v)]
+                except Exception:
+                    mut_elems = None
+            if fn == "core::slice::<impl [T]>::iter_mut" and mut_elems is not None:
+                return Val("iter", mut_elems)
+            if fn == "core::iter::traits::collect::IntoIterator::into_iter" and by_ref and mut_elems is not None and (cs.name or "").startswith("<&'a mut "):
+                return Val("iter", mut_elems)
             if fn in ("core::slice::<impl [T]>::iter", "core::slice::<impl [T]>::iter_mut"):
                 return Val("iter", [Val("ref", x) for x in a.v])
             if fn == "core::iter::traits::collect::IntoIterator::into_iter":
